@@ -47,14 +47,14 @@ def instances(tier):
         tup = [(1, 3, 2, 0)]
     else:
         # first complete thorough run: FASTA 3x3 / 4x3 / 5x2, Clustal 3x3, MSF 3x3 and auto-detected 3x2 on fully arbitrary bytes gave no verdict in 3600 s / 14 GB - dropped
-        tup = [(1, 2, 2, 0), (1, 3, 2, 0), (1, 4, 2, 0b0101), (3, 2, 3, 0), (2, 2, 3, 0)]
+        tup = [(1, 2, 2, 0), (1, 3, 2, 0), (1, 4, 2, 0b0101), (3, 2, 3, 0)]
     for rd, lines, ll, sm in tup:
         out.append(read_inst(rd, lines, ll, sm, timeout=1500 if tier == "quick" else 3600, mem_gb=8 if tier == "quick" else 14))
     # structured text with one damaged line.  Decided: a damaged body line (3-4 bytes) and a damaged Clustal header; a damaged
     # MSF header line ("//", Name:) makes the number of header lines symbolic and with it every later line pointer: symex
     # does not finish in 300 s (thorough-tier attempts with a long cap).
     holes = [(2, 10, 4), (3, 3, 3), (3, 0, 6), (3, 7, 3)] if tier == "quick" else \
-            [(2, 10, 4), (2, 9, 3), (2, 5, 3), (2, 7, 2), (3, 3, 3), (3, 3, 4), (3, 0, 6), (3, 0, 12), (3, 6, 4), (3, 7, 3), (3, 4, 4)]
+            [(2, 10, 4), (2, 9, 3), (3, 3, 3), (3, 3, 4), (3, 0, 6), (3, 0, 12), (3, 6, 4), (3, 7, 3), (3, 4, 4)]   # damaged MSF header lines (Name:, //) and the auto-detected reader: no verdict in 2400 s, dropped
     for tpl, hole, ll in holes:
         out.append(hole_inst(tpl, hole, ll, timeout=600 if tier == "quick" else 2400, mem_gb=8 if tier == "quick" else 16))
     for lines, ll in ([(2, 3)] if tier == "quick" else [(1, 1), (2, 3), (3, 2), (3, 4)]):
